@@ -11,7 +11,14 @@ import (
 
 func sxStr(s string) string { return "$" + hex.EncodeToString([]byte(s)) }
 
-func sxNum(f float64) string { return fmt.Sprintf("#%016x", math.Float64bits(f)) }
+// sxNum sends the bit pattern; NaN payloads are not observable in yae, so NaN travels as one
+// canonical pattern on both sides.
+func sxNum(f float64) string {
+	if f != f {
+		return "#7ff8000000000001"
+	}
+	return fmt.Sprintf("#%016x", math.Float64bits(f))
+}
 
 func sxBool(b bool) string {
 	if b {
